@@ -19,6 +19,16 @@ pub struct JoinCtl {
     pub assign: HashMap<String, Mode>,
     pub seen: Vec<String>,
     pub paths: HashMap<String, String>,
+    /// number of top-level joins so far in this execution (one per subtree that update hashes)
+    pub tops: usize,
+}
+
+impl JoinCtl {
+    pub fn reset_run(&mut self) {
+        self.seen.clear();
+        self.paths.clear();
+        self.tops = 0;
+    }
 }
 
 pub static CTL: Mutex<Option<JoinCtl>> = Mutex::new(None);
@@ -26,7 +36,7 @@ pub static CTL: Mutex<Option<JoinCtl>> = Mutex::new(None);
 pub fn ctl<R>(f: impl FnOnce(&mut JoinCtl) -> R) -> R {
     let mut g = CTL.lock().unwrap();
     if g.is_none() {
-        *g = Some(JoinCtl { assign: HashMap::new(), seen: vec![], paths: HashMap::new() });
+        *g = Some(JoinCtl { assign: HashMap::new(), seen: vec![], paths: HashMap::new(), tops: 0 });
     }
     f(g.as_mut().unwrap())
 }
@@ -42,11 +52,20 @@ pub fn tkey() -> String {
 /// The scripted join shared by the Rust hook and the C `verif_parallel_invoke`.
 pub fn scripted_join(a: &mut (dyn FnMut() + Send), b: &mut (dyn FnMut() + Send)) {
     let key = tkey();
-    let (path, mode) = ctl(|c| {
-        let path = c.paths.get(&key).cloned().unwrap_or_default();
+    // A node is named by the subtree it belongs to (t0, t1, ... in the order update hashes them; a
+    // single update may hash several power-of-two subtrees) and its L/R path inside that subtree.
+    let (path, mode, top) = ctl(|c| {
+        let (path, top) = match c.paths.get(&key) {
+            Some(p) => (p.clone(), false),
+            None => {
+                let p = format!("t{}", c.tops);
+                c.tops += 1;
+                (p, true)
+            }
+        };
         c.seen.push(path.clone());
         let mode = c.assign.get(&path).copied().unwrap_or(Mode::LR);
-        (path, mode)
+        (path, mode, top)
     });
     yield_point();
     let run = |side: char, f: &mut (dyn FnMut() + Send)| {
@@ -81,6 +100,9 @@ pub fn scripted_join(a: &mut (dyn FnMut() + Send), b: &mut (dyn FnMut() + Send))
             run('L', a);
             h.join().expect("join of the right half");
         }
+    }
+    if top {
+        ctl(|c| c.paths.remove(&key));
     }
     yield_point();
 }
@@ -187,6 +209,8 @@ pub fn scenarios(thorough: bool) -> Vec<Scn> {
             }
         }
     }
+    // smallest split trees first, so that a budget cut removes the largest models
+    v.sort_by_key(|s| (s.len / (degree(&s.lname) * 1024), s.prefix != 0, s.level));
     v
 }
 
@@ -244,8 +268,7 @@ pub fn c08(args: &Args, rep: &mut Report) {
         // discover the internal nodes of the split tree
         ctl(|c| {
             c.assign.clear();
-            c.seen.clear();
-            c.paths.clear();
+            c.reset_run();
         });
         let r0 = run_scn(&s, &data);
         let nodes: Vec<String> = ctl(|c| {
@@ -268,8 +291,7 @@ pub fn c08(args: &Args, rep: &mut Report) {
             let assign: HashMap<String, Mode> = nodes.iter().enumerate().map(|(i, n)| (n.clone(), if mask & (1 << i) != 0 { Mode::RL } else { Mode::LR })).collect();
             ctl(|c| {
                 c.assign = assign.clone();
-                c.seen.clear();
-                c.paths.clear();
+                c.reset_run();
             });
             let r = vcommon::catch(|| run_scn(&s, &data));
             rep.inc("evaluations");
@@ -300,12 +322,11 @@ pub fn c08(args: &Args, rep: &mut Report) {
             let eo = exp_out.clone();
             let a2 = assign.clone();
             // small trees without a bound (all interleavings), larger ones bounded
-            let pb = if k <= 3 && set.len() == 1 && s.len <= 4 * 1024 * degree(&s.lname) { None } else { Some(bound) };
+            let pb = if k <= 3 && set.len() == 1 && s.len <= 4 * 1024 * degree(&s.lname) { None } else if set.len() >= 3 { Some(2) } else { Some(bound) };
             let n = explore(pb, 20_000, move || {
                 ctl(|c| {
                     c.assign = a2.clone();
-                    c.seen.clear();
-                    c.paths.clear();
+                    c.reset_run();
                 });
                 let (s3, d3, es3, eo3, a3) = (s2.clone(), d2.clone(), es.clone(), eo.clone(), a2.clone());
                 let w = spawn_big(move || {
@@ -330,8 +351,7 @@ pub fn c08(args: &Args, rep: &mut Report) {
     LEVEL.store(usize::MAX, Ordering::SeqCst);
     ctl(|c| {
         c.assign.clear();
-        c.seen.clear();
-        c.paths.clear();
+        c.reset_run();
     });
     rayon_sampling(args, rep);
 }
@@ -400,21 +420,22 @@ pub fn op_sequence(which: usize, data: &[u8]) -> Vec<u8> {
         }
         5 => {
             let mut h = blake3::Hasher::new_keyed(&key());
-            h.update(&data[..100]);
+            h.update_reader(&data[..100]).expect("slice reader");
             let mut b = [0u8; 100];
             h.finalize_xof().fill(&mut b);
             out.extend_from_slice(&b);
         }
         0 => {
+            // the reader / Write adapters too: their staging buffer must be private to the call
             let mut h = blake3::Hasher::new();
-            h.update(&data[..3000]);
-            h.update(&data[3000..9000]);
+            h.update_reader(std::io::Cursor::new(&data[..3000])).expect("cursor");
+            std::io::copy(&mut std::io::Cursor::new(&data[3000..9000]), &mut h).expect("copy");
             out.extend_from_slice(h.finalize().as_bytes());
             out.extend_from_slice(&h.count().to_le_bytes());
         }
         1 => {
             let mut h = blake3::Hasher::new_keyed(&key());
-            h.update(&data[100..5100]);
+            h.update_reader(&data[100..5100]).expect("slice reader");
             let mut rd = h.finalize_xof();
             rd.set_position(64 * (1u64 << 32) - 64);
             let mut b = [0u8; 200];
@@ -517,7 +538,7 @@ pub fn c18(args: &Args, rep: &mut Report) {
             rep.inc("loom_models");
         }
         if rep.samples.len() < 2 {
-            rep.sample(json!({"side": "rust", "level": lname, "threads": [["Hasher::new", "update(3000)", "update(6000)", "finalize", "count"], ["Hasher::new_keyed", "update(5000)", "finalize_xof", "set_position(2^38-64)", "fill(200)", "clone", "update(9000)", "finalize"]], "preemption_bound": 2}));
+            rep.sample(json!({"side": "rust", "level": lname, "threads": [["Hasher::new", "update_reader(3000)", "io::copy(6000)", "finalize", "count"], ["Hasher::new_keyed", "update_reader(5000)", "finalize_xof", "set_position(2^38-64)", "fill(200)", "clone", "update(9000)", "finalize"]], "preemption_bound": 2}));
         }
     }
     LEVEL.store(usize::MAX, Ordering::SeqCst);
@@ -564,6 +585,7 @@ pub fn c18(args: &Args, rep: &mut Report) {
     if best > 0 {
         rec(vec![], 0, 2, best, &run_scripted, rep);
     }
+    static_scan(rep);
     // (c) sampling: 16 real threads as the very first calls of fresh processes
     let runs = if t { 200 } else { 20 };
     for i in 0..runs {
@@ -599,4 +621,49 @@ pub fn fresh_process_child() {
     }
     let ok = hs.into_iter().all(|h| h.join().unwrap_or(false));
     std::process::exit(if ok { 0 } else { 1 });
+}
+
+/// Supporting pass (decides nothing): list mutable statics / file-scope objects of the crate and the
+/// C library, so that the claim "the explorer owns every shared location" can be read off the evidence.
+fn static_scan(rep: &mut Report) {
+    let mut found: Vec<String> = vec![];
+    if let Ok(rd) = std::fs::read_dir("/repo/src") {
+        for e in rd.flatten() {
+            let p = e.path();
+            let name = p.file_name().unwrap().to_string_lossy().to_string();
+            if !name.ends_with(".rs") || name == "test.rs" || name == "verif_hooks.rs" {
+                continue;
+            }
+            if let Ok(text) = std::fs::read_to_string(&p) {
+                for (i, l) in text.lines().enumerate() {
+                    let t = l.trim_start();
+                    if t.starts_with("//") {
+                        continue;
+                    }
+                    let is_static = t.starts_with("static ") || t.starts_with("pub static ") || t.starts_with("pub(crate) static ") || t.contains("static mut ") || t.contains("thread_local!") || t.contains("lazy_static") || t.contains("OnceLock") || t.contains("OnceCell");
+                    if is_static || t.contains("cpufeatures::new!") {
+                        found.push(format!("src/{}:{}: {}", name, i + 1, t.chars().take(90).collect::<String>()));
+                    }
+                }
+            }
+        }
+    }
+    for f in ["blake3.c", "blake3_dispatch.c", "blake3_portable.c", "blake3_tbb.cpp"] {
+        if let Ok(text) = std::fs::read_to_string(format!("/repo/c/{}", f)) {
+            for (i, l) in text.lines().enumerate() {
+                let file_scope = !l.starts_with(' ') && !l.starts_with('\t');
+                let t = l.trim();
+                if t.starts_with("//") || t.starts_with("/*") || t.starts_with('#') {
+                    continue;
+                }
+                let mutable_static = (file_scope && t.starts_with("static ") && !t.contains('(') && !t.contains("const ")) || t.contains("g_cpu_features =") && file_scope || (t.starts_with("static ") && !file_scope && !t.contains("const ") && !t.contains('('));
+                if mutable_static || (t.contains("ATOMIC_INT g_cpu_features")) {
+                    found.push(format!("c/{}:{}: {}", f, i + 1, t.chars().take(90).collect::<String>()));
+                }
+            }
+        }
+    }
+    found.sort();
+    rep.add("shared_mutable_locations_listed", found.len() as u64);
+    rep.extra.insert("shared_mutable_locations".into(), json!(found));
 }
